@@ -6,8 +6,15 @@
 (* shipped file loaded independently (p, w: "ok"/"dirty"), whether its      *)
 (* arrays share memory with a cached array (pa, wa), and whether every      *)
 (* cached array still equals the shipped data (clean).                      *)
+(*                                                                          *)
+(* New events also say HOW the grid was asked for (method spelling mreq,    *)
+(* by = "degree" | "size", the number req) and what the object reports      *)
+(* (od, os); CacheReq states which tabulated grid such a request denotes.   *)
+(* AtomSet events (atomic grids whose shells use several degrees) carry the *)
+(* per-shell requests reqs and the degrees ds the harness compared with.    *)
 (***************************************************************************)
-EXTENDS CacheSys, Json
+EXTENDS CacheSys, CacheReq
+ASSUME TabsMonotone
 Traces == JsonDeserialize("traces_c19.json")
 VARIABLES tid, l
 tvars == <<vars, tid, l>>
@@ -15,10 +22,33 @@ Ev == Traces[tid][l]
 
 Predicted(e_) ==   \* the observation the specification predicts for event e_ in the current state
     [p |-> SrcP(e_.m, e_.d), w |-> SrcW(e_.m, e_.d)]
+DegSet(e_) == {e_.ds[k_] : k_ \in 1..Len(e_.ds)}
+\* the request layer: does the event name the grid the specification resolves the request to?
+RequestClause(e_) ==
+    IF "req" \notin DOMAIN e_ THEN "ok"
+    ELSE IF ~Denotes(e_.mreq, e_.m) THEN "method-spelling-unknown-to-the-specification"
+    ELSE IF ResolvedDegree(e_.m, e_.by, e_.req) # e_.d THEN "harness-and-specification-disagree-on-the-requested-grid"
+    ELSE IF e_.od # e_.d THEN "reported-degree-is-not-that-of-the-requested-grid"
+    ELSE IF e_.os # ResolvedSize(e_.m, e_.by, e_.req) THEN "reported-size-is-not-that-of-the-requested-grid"
+    ELSE "ok"
 Clause(e_) ==
     IF e_.exc # "" THEN "raised:" \o e_.exc
-    ELSE CASE e_.ev \in {"New", "Atom", "Shell", "AtomOp", "AtomRot", "Mol"} ->
-                 IF e_.p # Predicted(e_).p THEN "points-differ-from-shipped-data"
+    ELSE CASE e_.ev = "AtomSet" ->
+                 IF ~Denotes(e_.mreq, e_.m) THEN "method-spelling-unknown-to-the-specification"
+                 ELSE IF Len(e_.ds) # Len(e_.reqs) \/ \E k_ \in 1..Len(e_.ds) : ResolvedDegree(e_.m, e_.by, e_.reqs[k_]) # e_.ds[k_]
+                        THEN "harness-and-specification-disagree-on-the-requested-grid"
+                 ELSE IF e_.p # AllOk(e_.m, DegSet(e_), "p") THEN "points-differ-from-shipped-data"
+                 ELSE IF e_.w # AllOk(e_.m, DegSet(e_), "w") THEN "weights-differ-from-shipped-data"
+                 ELSE IF e_.pa THEN "points-array-aliases-cache"
+                 ELSE IF e_.wa THEN "weights-array-aliases-cache"
+                 ELSE IF ~e_.clean THEN "cached-array-modified"
+                 ELSE "ok"
+           [] e_.ev = "Use" ->
+                 IF e_.pa THEN "points-array-aliases-cache"
+                 ELSE IF ~e_.clean THEN "cached-array-modified" ELSE "ok"
+           [] e_.ev \in {"New", "Atom", "Shell", "AtomOp", "AtomRot", "Mol", "MolSize"} ->
+                 IF e_.ev = "New" /\ RequestClause(e_) # "ok" THEN RequestClause(e_)
+                 ELSE IF e_.p # Predicted(e_).p THEN "points-differ-from-shipped-data"
                  ELSE IF e_.w # Predicted(e_).w THEN "weights-differ-from-shipped-data"
                  ELSE IF e_.pa THEN "points-array-aliases-cache"
                  ELSE IF e_.wa THEN "weights-array-aliases-cache"
@@ -37,6 +67,9 @@ Apply(e_) ==
       [] e_.ev = "AtomOp" -> AtomOp(e_.m, e_.d)
       [] e_.ev = "AtomRot" -> NewAtomRot(e_.m, e_.d)
       [] e_.ev = "Mol" -> NewMol(e_.m, e_.d)
+      [] e_.ev = "MolSize" -> NewMol(e_.m, e_.d)
+      [] e_.ev = "AtomSet" -> NewAtomSet(e_.m, DegSet(e_))
+      [] e_.ev = "Use" -> Use(e_.i)
 Reset(t_) == /\ tid' = t_ /\ l' = 1
              /\ cache' = [mm_ \in Methods |-> [dd_ \in Degrees |-> Absent]]
              /\ objs' = <<>> /\ obs' = NoObs
